@@ -105,7 +105,9 @@ class GMRFPiecewiseCoalescentBlockUpdatingOperator(MCMCOperator):
 
     def __call__(self) -> Tensor:
         coalescent = self.coalescent.distribution()
-        gamma = self.gmrf.field.tensor
+        # a copy: the tensor of a view shares its storage with the parameter the
+        # proposal is written into
+        gamma = self.gmrf.field.tensor.clone()
         sufficient_statistics, coalescent_counts = coalescent.sufficient_statistics(
             self.coalescent.tree_model.node_heights
         )
@@ -158,7 +160,9 @@ class GMRFPiecewiseCoalescentBlockUpdatingOperator(MCMCOperator):
 
     def _step(self) -> Tensor:
         coalescent = self.coalescent.distribution()
-        gamma = self.gmrf.field.tensor
+        # a copy: the tensor of a view shares its storage with the parameter the
+        # proposal is written into
+        gamma = self.gmrf.field.tensor.clone()
         # the proposal densities below are densities of the field and of the
         # precision; when one of them is a transformed parameter the chain moves
         # in the parameter behind it and the ratio carries the change of the
